@@ -20,6 +20,10 @@ def oracle(trace_text, origin):
         w = line.split()
         if not w:
             continue
+        if w[0] == 'FETCH' and len(w) >= 5 and w[3] != 'same':
+            # the URL the endpoint advertises is what the other peers fetch (through the crate's own request())
+            failures.append(dict(signature='advertised-url-not-fetchable', origin=dict(origin, line=ln),
+                                 what='a second endpoint asked to download %s %s from the advertised URL %s obtained: %s' % (w[1], w[2][:8], w[4], w[3])))
         if w[0] == 'EP':
             threshold = int(w[2])
         elif w[0] == 'PUB':
@@ -115,6 +119,19 @@ def run(ctx):
                                  what='%d connection(s) requested a large asset and did not read it: serve_audio did not return within 3 s' % k))
         else:
             nontrivial.add(('stall', str(k), str(v6)))
+    # known finding S33 (open): the repair of S29 answers requests on RESPONDERS = 16 threads; once at least
+    # that many connections have requested a large asset and do not read it (and the socket buffers are full),
+    # every responder is stuck in write() and later requests wait for ever - tiny_http offers no write time-out.
+    # Identified by: at least 16 never-reading connections; fewer must never block the endpoint (above).
+    rc, out = core.run([core.BSH, 'http-stall', '40', '0'], timeout=120)
+    evaluations += 1
+    m = re.search(r'^STALL readers=(\d+) small_get=(\S+) publish_ms=(\S+)$', out, re.M)
+    if rc == 0 and m and m.group(2) != '200:010203':
+        failures.append(dict(signature='S33-all-responders-stalled', origin=dict(cmd='http-stall', readers=40, ipv6=0),
+                             what='40 connections (more than the 16 responder threads) requested a large asset and did not read it: a later GET of a published 3-byte asset got %s' % m.group(2)))
+    if rc == 0 and m and m.group(3) == 'timeout':
+        failures.append(dict(signature='stalled-reader-blocks-publication', origin=dict(cmd='http-stall', readers=40, ipv6=0),
+                             what='40 connections requested a large asset and did not read it: serve_audio did not return within 3 s'))
     return dict(evaluations=evaluations, distinct_nontrivial=len(nontrivial),
                 rule='operations (publish / raw-socket request) over %d endpoint histories (every third on ::1), plus stalled-reader probes (connections that never read a 48 MB answer: later requests and publications must go on); non-trivial = distinct (history, published key, status, length mode) among requests for published assets' % nruns,
                 samples=samples, diffs=diffs, failures=failures, traces=traces,
